@@ -68,7 +68,10 @@ def run(res):
         if r["rc"] not in (0,):
             tail = [e for e in r["events"] if e["ev"] in ("Timeout", "Drained")]
             res.violation("encode did not complete (rc=%s, %s): %s" % (r["rc"], tail[-1:] , r["desc"]), r["log"][-2000:],
-                          key={"kind": "incomplete", "hierarchical_levels": r["case"]["sets"].get("hierarchical_levels", 4)})
+                          key={"kind": "incomplete", "hierarchical_levels": r["case"]["sets"].get("hierarchical_levels", 4),
+                               "enable_overlays": int(r["case"]["sets"].get("enable_overlays", 0)),
+                               "intra_refresh_type": int(r["case"]["sets"].get("intra_refresh_type", 2)),
+                               "logical_processors": r["case"]["sets"].get("logical_processors")})
             continue
         b.add("Session", stream.session_events(r), r["desc"])
         be, errs, pk = stream.bitstream_events(r, n_expected=n, expect={"hdrdig": ""})   # API header clause: C02
